@@ -19,10 +19,13 @@ class Lemma:
     """forall var in [lo, hi]: claim   proved by induction ('up' from lo or
     'down' from hi) or directly (induction=None)."""
 
-    def __init__(self, name, var, lo, hi, claim, induction="up", uses=()):
+    def __init__(self, name, var, lo, hi, claim, induction="up", via=()):
         self.name, self.var, self.lo, self.hi, self.claim = name, var, lo, hi, claim
         self.induction = induction
-        self.uses = list(uses)
+        # via: instance facts (each proved from the axioms first); the claim
+        # is then proved from these alone, quantifier-free, so that the
+        # nonlinear solver is not drowned by quantified axioms
+        self.via = list(via)
 
 
 class Contract:
